@@ -264,8 +264,19 @@ def run(ctx):
             if isinstance(node, ast.Attribute) and node.attr == 'titratable' \
                     and isinstance(node.ctx, ast.Load):
                 readers.setdefault((m2.name, q2), (m2, node))
+    # a private helper (leading underscore) that is called only from listed
+    # readers - itself included: a recursive helper - reads the flag on their behalf
+    from sa import callgraph as _cg
+    cg14 = _cg.build(prog)
+
+    def on_behalf(key, seen=()):
+        name = key[1].split('.')[-1]
+        if not (name.startswith('_') and not name.startswith('__')) or key in seen:
+            return False
+        callers = [c for c in cg14.callers_of(key) if c != key]
+        return bool(callers) and all(c in TITRATABLE_READERS or on_behalf(c, seen + (key,)) for c in callers)
     for key, (m2, node) in sorted(readers.items()):
-        ctx.ob('C14.R3', 'titratable-reader:%s.%s' % key, key in TITRATABLE_READERS,
+        ctx.ob('C14.R3', 'titratable-reader:%s.%s' % key, key in TITRATABLE_READERS or on_behalf(key),
                'reader of the titratable flag is one of the reviewed sites (%s)'
                % TITRATABLE_READERS.get(key, 'NOT reviewed: a new dependence on the flag can '
                                         'remove demoted groups from the environment'), m2, node)
